@@ -2,6 +2,7 @@ package mpx
 
 import (
 	"fmt"
+	"github.com/basecomplextech/baselibrary/units"
 
 	"github.com/basecomplextech/baselibrary/status"
 	"github.com/basecomplextech/spec/zzverif/vexp"
@@ -29,7 +30,11 @@ func newWide(x *vexp.Ctx, handler Handler) *vWide {
 	log := newVLogger()
 	opts := vOpts(x)
 	w := &vWide{a: a, b: b, log: log}
-	w.srv = newConn(b, false, noopConnDelegate{}, handler, log, opts)
+	sopts := opts
+	if sw := x.P("srvwindow", 0); sw > 0 {
+		sopts.ChannelWindowSize = units.Bytes(sw) // the two ends are configured with different window options
+	}
+	w.srv = newConn(b, false, noopConnDelegate{}, handler, log, sopts)
 	w.cli = newConn(a, true, noopConnDelegate{}, HandleFunc(func(ctx Context, ch Channel) status.Status {
 		return status.ExternalError("client connection does not support incoming channels")
 	}), log, opts)
